@@ -27,7 +27,7 @@ TECHNIQUE = (
 )
 RULE = (
     "case = incidence matrix (protein i contains constructed tryptic peptide j) + entry order + optional mirrored "
-    "decoys + missed cleavages 0/1. Enumerated: all matrices up to 3x3 (quick) / 4x4 (thorough) x given and reversed "
+    "decoys + optional decoy-prefixed entries that share the targets' peptides + missed cleavages 0/1. Enumerated: all matrices up to 3x3 (quick) / 4x4 (thorough) x given and reversed "
     "order; random: up to 9 proteins x 9 peptides, drawn order. Each case is read in 3 entry orders in-process; "
     "batches are re-read under 2 other hash seeds. Non-trivial: some protein's peptide set is contained in another's "
     "(subset, equal sets, or contained in two different proteins). Distinct = distinct canonical JSON."
@@ -49,13 +49,16 @@ def budget(tier):
 def _proteins(case):
     """[(name, sequence)] in the case's base order (targets then mirrored decoys)."""
     out = []
+    names = case.get("names") or [f"P{i}" for i in range(len(case["matrix"]))]
     for i, row in enumerate(case["matrix"]):
         seq = "".join(TP[j] for j, b in enumerate(row) if b)
-        out.append((f"P{i}", seq))
-    if case.get("decoys"):
+        out.append((names[i], seq))
+    if case.get("decoys") and not case.get("names"):  # mirrored decoys would collide with explicitly prefixed entries
         for i, row in enumerate(case["matrix"]):
+            if names[i].startswith(PREFIX):
+                continue
             seq = "".join(TP[j][:-1][::-1] + "K" for j, b in enumerate(row) if b)
-            out.append((f"{PREFIX}P{i}", seq))
+            out.append((f"{PREFIX}{names[i]}", seq))
     return out
 
 
@@ -177,6 +180,8 @@ def check(case):
         classes.append("equal-sets")
     if case.get("decoys"):
         classes.append("decoys")
+    if case.get("names"):
+        classes.append("prefixed-entries-sharing-target-peptides")
     if missed:
         classes.append("missed-cleavage")
     return {"nontrivial": contained, "classes": classes, "counters": {"fasta_reads": 3}}
@@ -189,6 +194,10 @@ def enumerate_cases(tier):
             for bits in itertools.product((0, 1), repeat=np_ * nq):
                 m = [list(bits[i * nq:(i + 1) * nq]) for i in range(np_)]
                 yield {"matrix": m, "decoys": False, "missed": 0, "perm": [2, 0, 3, 1]}
+                if np_ >= 2:
+                    # the last entry carries the decoy prefix but shares the targets' peptide universe
+                    yield {"matrix": m, "decoys": False, "missed": 0, "perm": [2, 0, 3, 1],
+                           "names": [f"P{i}" for i in range(np_ - 1)] + [PREFIX + "P0"]}
 
 
 def exhaustive_claim(tier):
@@ -210,8 +219,20 @@ def _case(draw, tier):
             rows.append([int(a and b) for a, b in zip(src, mask)] if draw(st.booleans()) else list(src))
         else:
             rows.append([int(x) for x in draw(st.lists(st.booleans(), min_size=nq, max_size=nq))])
+    names = None
+    if draw(st.booleans()):
+        # some entries carry the decoy prefix while sharing peptides with targets (shuffled decoys can collide with targets)
+        names, k = [], 0
+        for i in range(np_):
+            if i >= 1 and k < i and draw(st.integers(0, 2)) == 0:
+                names.append(f"{PREFIX}P{k}")
+                k += 1
+            else:
+                names.append(f"P{i}")
+        if len(set(names)) != len(names) or not any(not n.startswith(PREFIX) for n in names):
+            names = None
     return {"matrix": rows, "decoys": draw(st.booleans()), "missed": draw(st.sampled_from([0, 0, 1])),
-            "perm": draw(st.lists(st.integers(0, 20), min_size=1, max_size=12))}
+            "perm": draw(st.lists(st.integers(0, 20), min_size=1, max_size=12)), "names": names}
 
 
 def strategy(tier):
